@@ -168,7 +168,7 @@ def _write_book(path, cases):
 
 def execute_book(cases):
     """Write the cases into one workbook, read every sheet with the real read_excel.
-    Returns per case (event, mismatch-or-None, info)."""
+    Returns per case (events - one per read -, mismatch-or-None, info)."""
     import warnings
     from pmutt.io.excel import read_excel
     d = tempfile.mkdtemp(prefix='c15_')
@@ -180,27 +180,31 @@ def execute_book(cases):
             kw = {'sheet_name': nm}
             if not case.get('comment', True):
                 kw['skiprows'] = [] if case.get('skip_empty_list') else None
-            raised, records, msg = '', [], ''
-            try:
-                with warnings.catch_warnings():
-                    warnings.simplefilter('ignore')
-                    recs = read_excel(path, **kw)
-                records = [proj_record(r) for r in recs]
-            except Exception as ex:      # the library raised on a sheet of the quantifier
-                raised, msg = type(ex).__name__, ('%s: %s' % (type(ex).__name__, ex))[:160]
-            ev = {'ev': 'read', 'headers': case['headers'], 'rows': case['rows'],
-                  'raised': raised, 'records': records}
-            mism = None
-            if 'expected' in case and not raised:
-                exp = canon_expected(case['expected'])
-                if records != exp:
-                    bad = [k for k in range(max(len(exp), len(records)))
-                           if k >= len(exp) or k >= len(records) or exp[k] != records[k]]
-                    k = bad[0]
-                    mism = {'rows_differing': bad[:10],
-                            'expected': show_record(exp[k]) if k < len(exp) else None,
-                            'got': show_record(records[k]) if k < len(records) else None}
-            out.append((ev, mism, {'raised': msg, 'sheet': nm}))
+            # a sheet with a formula column is read twice in this process: the second read must
+            # satisfy the specification like the first (nothing may survive from one call to the next)
+            reads = 2 if any(text(h).strip() == 'formula' for h in case['headers']) else 1
+            evs, mism, msg = [], None, ''
+            for attempt in range(reads):
+                raised, records = '', []
+                try:
+                    with warnings.catch_warnings():
+                        warnings.simplefilter('ignore')
+                        recs = read_excel(path, **kw)
+                    records = [proj_record(r) for r in recs]
+                except Exception as ex:      # the library raised on a sheet of the quantifier
+                    raised, msg = type(ex).__name__, ('%s: %s' % (type(ex).__name__, ex))[:160]
+                evs.append({'ev': 'read', 'headers': case['headers'], 'rows': case['rows'],
+                            'raised': raised, 'records': records})
+                if 'expected' in case and not raised and mism is None:
+                    exp = canon_expected(case['expected'])
+                    if records != exp:
+                        bad = [k for k in range(max(len(exp), len(records)))
+                               if k >= len(exp) or k >= len(records) or exp[k] != records[k]]
+                        k = bad[0]
+                        mism = {'read': attempt + 1, 'rows_differing': bad[:10],
+                                'expected': show_record(exp[k]) if k < len(exp) else None,
+                                'got': show_record(records[k]) if k < len(records) else None}
+            out.append((evs, mism, {'raised': msg, 'sheet': nm}))
     finally:
         shutil.rmtree(d, ignore_errors=True)
     return out
@@ -261,9 +265,9 @@ def random_case(rnd, cid, big=False):
     cols = []        # (header text, kind)
     for nm in rnd.sample(ORD_NAMES, rnd.randint(0, 6)):
         cols.append((_pad(nm, rnd, 0.25), rnd.choice(['num', 'str', 'mix'])))
-    if rnd.random() < 0.15:
+    if rnd.random() < 0.25:
         cols.append(('formula', 'formula'))
-    elif rnd.random() < 0.7:
+    if rnd.random() < 0.65:
         pre = rnd.choice(['element.', 'elements.'])
         syms = rnd.sample(SYMBOLS, rnd.randint(1, 4))
         if 'RU' in syms and 'Ru' in syms:
@@ -502,9 +506,11 @@ def run(ctx):
     ctx.coverage['rule'] = (
         'a case is one worksheet (header row, optional comment row, data rows) read by the real '
         'read_excel; tlc cases are all sheets of MC_ExcelReader (layouts of <=2 columns from 24 '
-        'header instances, 3 columns from 6, 8 five-column layouts; <=3 rows; all or structured '
+        'header instances, 3 columns from 6, formula with element.X columns in every order, 10 '
+        'five-column layouts; <=3 rows; all or structured '
         'emptiness patterns) with the records computed by TLC (equality of projected records); '
-        'random cases draw 1-60 rows and every documented header class; repo cases are the sheets of '
+        'random cases draw 1-60 rows and every documented header class (formulas repeat down the column, '
+        'sheets with a formula column are read twice in one process); repo cases are the sheets of '
         'the example workbooks; every case is also judged by Trace_ExcelReader.tla; non-trivial = at '
         'least one non-empty cell under a special header; distinct by headers + emptiness pattern')
     import time
@@ -557,7 +563,8 @@ def run(ctx):
         cases = []
         tcases.sort(key=lambda c: json.dumps([c['headers'], c['rows']]))
         for k, c in enumerate(tcases):
-            if ctx.quick and c['how'] == 'all' and rnd.random() < 0.55:
+            mixed = 7 in c['lay'] and any(k in c['lay'] for k in (4, 5, 6))    # formula + element.X
+            if ctx.quick and c['how'] == 'all' and not mixed and rnd.random() < 0.55:
                 continue
             cases.append({'cid': 't%d' % k, 'kind': 'tlc', 'headers': c['headers'], 'rows': c['rows'],
                           'expected': c['expected'], 'comment': k % 2 == 0, 'skip_empty_list': k % 4 == 1})
@@ -597,7 +604,7 @@ def run(ctx):
         _exercise(ctx, case)
         if mism is not None:
             ctx.violation('ReplayRecords', case, tags=_tags(case, info), detail=mism)
-        traces.append((tid, [ev]))
+        traces.append((tid, ev))
         infos.append(info)
         if tid % 2711 == 0 or case['kind'] == 'repo' and tid % 7 == 0:
             ctx.sample(_brief(case), cap=8)
